@@ -50,6 +50,8 @@ class RealCon:
         w = self.w
         w.event('sql', sql, self)
         s = sql.strip().upper()
+        if getattr(w, 'busy_all_hook', None) is not None and w.busy_all_hook(self, sql):
+            raise sqlite3.OperationalError('database is locked')
         if s.startswith('BEGIN') and w.busy_hook is not None and w.busy_hook(self):
             raise sqlite3.OperationalError('database is locked')
         if s == 'PRAGMA PAGE_COUNT' and w.page_count_fn is not None:
@@ -131,6 +133,7 @@ class RealWorld(env.BaseWorld):
 
     # ---- seams
     def connect(self, path, timeout=0, isolation_level=None, **kw):
+        kw.setdefault('check_same_thread', False)  # the two clients of an Interleaver run in two OS threads (one at a time)
         con = sqlite3.connect(path, timeout=0, isolation_level=isolation_level, **kw)
         rc = RealCon(self, con)
         self.handles.append(rc)
@@ -160,9 +163,22 @@ class RealWorld(env.BaseWorld):
                 w.event('fs', 'write:%s' % self.path)
                 return self.f.write(chunk)
 
+            def _ev(self):
+                if not getattr(self, '_read_seen', False):  # one event per file object, however the reader chunks it
+                    self._read_seen = True
+                    w.event('fs', 'read:%s' % self.path)
+
             def read(self, *a):
-                w.event('fs', 'read:%s' % self.path)
+                self._ev()
                 return self.f.read(*a)
+
+            def readline(self, *a):
+                self._ev()
+                return self.f.readline(*a)
+
+            def readinto(self, b):
+                self._ev()
+                return self.f.readinto(b)
 
             def close(self):
                 if not self.f.closed:
@@ -241,6 +257,9 @@ class RealWorld(env.BaseWorld):
 
     def set_busy_hook(self, cache, fn):
         self.busy_hook = fn
+
+    def set_busy_all_hook(self, cache, fn):
+        self.busy_all_hook = fn
 
     def damage_file(self, cache, rel, deleted, new_size):
         p = os.path.join(cache._directory, rel)
